@@ -640,6 +640,7 @@ def rule_V(ctx, repo):
         for ch in ast.iter_child_nodes(n_):
             parents[ch] = n_
     defs = {}
+    strconst = {}
     for n_ in ast.walk(fn):
         if isinstance(n_, ast.Assign):
             used = set(x.id for x in ast.walk(n_.value) if isinstance(x, ast.Name))
@@ -647,6 +648,19 @@ def rule_V(ctx, repo):
                 for x in ast.walk(t):
                     if isinstance(x, ast.Name):
                         defs.setdefault(x.id, set()).update(used)
+                        if isinstance(n_.value, ast.Constant) and isinstance(n_.value.value, str):
+                            strconst[x.id] = n_.value.value
+        elif isinstance(n_, ast.For):
+            used = set(x.id for x in ast.walk(n_.iter) if isinstance(x, ast.Name))
+            for x in ast.walk(n_.target):
+                if isinstance(x, ast.Name):
+                    defs.setdefault(x.id, set()).update(used)
+    for name_, node_ in m.consts.items():
+        if isinstance(node_, ast.Constant) and isinstance(node_.value, str):
+            strconst.setdefault(name_, node_.value)
+
+    def exc_text(e):
+        return unparse(e) + ' ' + ' '.join(strconst.get(x.id, '') for x in ast.walk(e) if isinstance(x, ast.Name))
 
     def closure(names):
         seen, todo = set(), list(names)
@@ -678,7 +692,7 @@ def rule_V(ctx, repo):
         if not guards:
             continue
         inner = closure(x.id for x in ast.walk(guards[0]) if isinstance(x, ast.Name))
-        if not (pa in inner and pk in inner and 'multiple values' in unparse(n_.exc)):
+        if not (pa in inner and pk in inner and 'multiple values' in exc_text(n_.exc)):
             continue
         under = set(x.id for g in guards for x in ast.walk(g) if isinstance(x, ast.Name)) & variadic
         (dup_nested if under else dup_free).append((n_, sorted(under)))
@@ -690,6 +704,64 @@ def rule_V(ctx, repo):
             ctx.fail('V-DUP', fi.qual, 'duplicate check only when not %s' % ' / '.join(under),
                      'validate reports "multiple values" for a parameter given both by position and by keyword only under a test of `%s`: for a function that takes '
                      '**kwds (or *args) the duplicate is accepted, although Python raises TypeError for it' % ', '.join(under), '%s:%d' % (m.rel, n_.lineno))
+    # ---- V-PAIRS: what a partial fixed cannot be given again.  The names signature() marks with '!' in its first element (fixed by keyword:
+    # unsettable by position) meet the call's positionals in a rejection, and the '!' keys of its second element (fixed by position) meet the
+    # call's keywords in one
+    sigvars = None
+    for n_ in ast.walk(fn):
+        if isinstance(n_, ast.Assign) and isinstance(n_.value, ast.Call) and isinstance(n_.value.func, ast.Name) and n_.value.func.id == 'signature' \
+                and len(n_.targets) == 1 and isinstance(n_.targets[0], ast.Tuple) and len(n_.targets[0].elts) == 4 \
+                and all(isinstance(x, ast.Name) for x in n_.targets[0].elts):
+            sigvars = [x.id for x in n_.targets[0].elts]
+    marks = {}
+    if sigvars:
+        for n_ in ast.walk(fn):
+            if isinstance(n_, ast.Assign) and len(n_.targets) == 1 and isinstance(n_.targets[0], ast.Name):
+                for c in ast.walk(n_.value):
+                    if isinstance(c, (ast.GeneratorExp, ast.ListComp, ast.SetComp)):
+                        for g in c.generators:
+                            if isinstance(g.iter, ast.Name) and g.iter.id in sigvars[:2] and any(
+                                    isinstance(x, ast.Call) and isinstance(x.func, ast.Attribute) and x.func.attr == 'startswith' and x.args
+                                    and isinstance(x.args[0], ast.Constant) and x.args[0].value == '!' for i_ in g.ifs for x in ast.walk(i_)):
+                                marks.setdefault(g.iter.id, set()).add(n_.targets[0].id)
+    if sigvars and len(marks) == 2:
+        guard_closures = []
+        for n_ in ast.walk(fn):
+            if isinstance(n_, ast.Raise) and n_.exc is not None:
+                cur = n_
+                while cur in parents and parents[cur] is not fn:
+                    par = parents[cur]
+                    if isinstance(par, ast.If) and cur in par.body:
+                        # flow-sensitive enough for this function: only definitions above the guard count
+                        names = set(x.id for x in ast.walk(par.test) if isinstance(x, ast.Name))
+                        seen, todo = set(), list(names)
+                        while todo:
+                            x = todo.pop()
+                            if x in seen:
+                                continue
+                            seen.add(x)
+                            for a_ in ast.walk(fn):
+                                if isinstance(a_, ast.Assign) and a_.lineno <= par.lineno and any(isinstance(t, ast.Name) and t.id == x for t in a_.targets):
+                                    todo.extend(y.id for y in ast.walk(a_.value) if isinstance(y, ast.Name))
+                                elif isinstance(a_, ast.For) and a_.lineno <= par.lineno and any(isinstance(t, ast.Name) and t.id == x for t in ast.walk(a_.target)):
+                                    todo.extend(y.id for y in ast.walk(a_.iter) if isinstance(y, ast.Name))
+                        guard_closures.append(seen)
+                        break
+                    cur = par
+        # a helper that receives both also counts (the rejection may live there)
+        for n_ in ast.walk(fn):
+            if isinstance(n_, ast.Call):
+                guard_closures.append(set(x.id for a_ in list(n_.args) + [k.value for k in n_.keywords] for x in ast.walk(a_) if isinstance(x, ast.Name)))
+        for var, param, what in ((sigvars[0], pa, "a name the partial fixed by keyword, given again by position"),
+                                 (sigvars[1], pk, "a name the partial fixed by position, given again by keyword")):
+            ok = any((marks[var] & gc) and param in gc for gc in guard_closures)
+            ctx.ob('V-PAIRS', what, ok)
+            if not ok:
+                ctx.fail('V-PAIRS', fi.qual, "'!' marks of %s never meet %s" % (var, param),
+                         'validate computes the set of parameters marked unsettable (%s, from the \'!\' entries of `%s`) but no rejection tests it against the call\'s %s: '
+                         '%s is accepted, although the partial raises "got multiple values" for it' % (', '.join(sorted(marks[var])), var,
+                                                                                                    'positional arguments' if param == pa else 'keywords', what),
+                         '%s:%d' % (m.rel, fi.node.lineno))
     # ---- V-ISVALID: isvalid is "validate did not raise"
     isv = m.functions['isvalid']
     ctx.analysed(isv.qual)
